@@ -3,6 +3,7 @@
 package main
 
 import (
+	"context"
 	"crypto"
 	"crypto/ecdsa"
 	"crypto/elliptic"
@@ -189,6 +190,9 @@ type vfIdP struct {
 	Mint         func(m *vfMintCtx)
 	Userinfo     func(c *vfIdpCall, claims map[string]interface{})
 	UserinfoPost func(c *vfIdpCall, claims map[string]interface{}) // flavour of the profile document (runs after Userinfo)
+	// TaskFor attributes a call that arrives without a task (the caller used a context of its own, e.g. context.TODO() in the
+	// claim extractor) to one of the scheduler's tasks, so that it becomes a yield point like every other call
+	TaskFor func(c *vfIdpCall) string
 	Latency      func(c *vfIdpCall) time.Duration
 }
 
@@ -473,6 +477,12 @@ func (p *vfIdP) ServeHTTP(rw http.ResponseWriter, r *http.Request) {
 		call.Endpoint = "logout"
 	default:
 		call.Endpoint = "unknown:" + r.URL.Path
+	}
+	if call.Task == "" && p.TaskFor != nil {
+		if tk := p.TaskFor(call); tk != "" {
+			call.Task = tk
+			r = r.WithContext(context.WithValue(r.Context(), vfTaskKey{}, tk))
+		}
 	}
 	if err := w.sched.yieldDone(r.Context(), "idp", call.Endpoint, r.Context().Done()); err != nil {
 		panic(http.ErrAbortHandler) // abandoned: drop the connection without an answer
